@@ -37,6 +37,7 @@ type Case struct {
 	GenLen  int    `json:"gen_len,omitempty"` // >0: generated content of that length instead of Hex
 	Value   string `json:"value,omitempty"`   // name of the round-trip value (structured codecs)
 	Zero    int    `json:"zero_reads"`        // how many zero-length reads the scripted readers may offer
+	Errs    int    `json:"errs"`              // how many injected errors each scripted stream may offer
 	Bound   int    `json:"bound"`             // deviation bound used by the explorer (-1: every choice sequence)
 	Choices []int  `json:"choices"`           // answers to the choice points, 0 afterwards
 }
@@ -282,23 +283,23 @@ func buildCases(thorough bool) (cases []Case, sizes map[string]any) {
 						cs = reduced
 					}
 					for _, s := range cs {
-						add(Case{Sweep: "consume", Codec: codec, Kind: k.name, Stream: stream, Close: cl, Hex: hx(s), Zero: zero, Bound: -1})
+						add(Case{Sweep: "consume", Codec: codec, Kind: k.name, Stream: stream, Close: cl, Hex: hx(s), Zero: zero, Errs: 2, Bound: -1})
 					}
 					if stream == "plain" {
 						continue
 					}
 					if supported {
 						for _, s := range medium {
-							add(Case{Sweep: "consume", Codec: codec, Kind: k.name, Stream: stream, Close: cl, Hex: hx(s), Zero: 1, Bound: mBound})
+							add(Case{Sweep: "consume", Codec: codec, Kind: k.name, Stream: stream, Close: cl, Hex: hx(s), Zero: 1, Errs: 2, Bound: mBound})
 						}
 					}
 					if supported || k.name == "*int" || k.name == "nil" {
 						for _, n := range bigLens {
-							add(Case{Sweep: "consume", Codec: codec, Kind: k.name, Stream: stream, Close: cl, GenLen: n, Zero: 1, Bound: bound})
+							add(Case{Sweep: "consume", Codec: codec, Kind: k.name, Stream: stream, Close: cl, GenLen: n, Zero: 1, Errs: 2, Bound: bound})
 						}
 					}
 				}
-				add(Case{Sweep: "consume", Codec: codec, Kind: k.name, Stream: "nil", Close: cl, Hex: hx("a"), Bound: -1})
+				add(Case{Sweep: "consume", Codec: codec, Kind: k.name, Stream: "nil", Close: cl, Hex: hx("a"), Errs: 2, Bound: -1})
 			}
 		}
 	}
@@ -319,19 +320,19 @@ func buildCases(thorough bool) (cases []Case, sizes map[string]any) {
 						cs = reduced
 					}
 					for _, s := range cs {
-						add(Case{Sweep: "produce", Codec: codec, Kind: k.name, Stream: stream, Close: cl, Hex: hx(s), Zero: zero, Bound: -1})
+						add(Case{Sweep: "produce", Codec: codec, Kind: k.name, Stream: stream, Close: cl, Hex: hx(s), Zero: zero, Errs: 2, Bound: -1})
 					}
 					if stream == "plain" || !exact {
 						continue
 					}
 					for _, s := range medium {
-						add(Case{Sweep: "produce", Codec: codec, Kind: k.name, Stream: stream, Close: cl, Hex: hx(s), Zero: 1, Bound: mBound})
+						add(Case{Sweep: "produce", Codec: codec, Kind: k.name, Stream: stream, Close: cl, Hex: hx(s), Zero: 1, Errs: 2, Bound: mBound})
 					}
 					for _, n := range bigLens {
-						add(Case{Sweep: "produce", Codec: codec, Kind: k.name, Stream: stream, Close: cl, GenLen: n, Zero: 1, Bound: bound})
+						add(Case{Sweep: "produce", Codec: codec, Kind: k.name, Stream: stream, Close: cl, GenLen: n, Zero: 1, Errs: 2, Bound: bound})
 					}
 				}
-				add(Case{Sweep: "produce", Codec: codec, Kind: k.name, Stream: "nil", Close: cl, Hex: hx("a"), Bound: -1})
+				add(Case{Sweep: "produce", Codec: codec, Kind: k.name, Stream: "nil", Close: cl, Hex: hx("a"), Errs: 2, Bound: -1})
 			}
 		}
 	}
@@ -339,9 +340,9 @@ func buildCases(thorough bool) (cases []Case, sizes map[string]any) {
 	for _, codec := range []string{"bytestream", "text"} {
 		for _, pair := range exactPairs[codec] {
 			for _, s := range append(append([]string{}, reduced...), medium[:3]...) {
-				add(Case{Sweep: "roundtrip", Codec: codec, Kind: pair, Hex: hx(s), Zero: 1, Bound: mBound})
+				add(Case{Sweep: "roundtrip", Codec: codec, Kind: pair, Hex: hx(s), Zero: 1, Errs: 2, Bound: mBound})
 			}
-			add(Case{Sweep: "roundtrip", Codec: codec, Kind: pair, GenLen: 4097, Zero: 1, Bound: bound})
+			add(Case{Sweep: "roundtrip", Codec: codec, Kind: pair, GenLen: 4097, Zero: 1, Errs: 2, Bound: bound})
 		}
 	}
 	for _, codec := range []string{"json", "xml", "yaml"} {
@@ -353,11 +354,11 @@ func buildCases(thorough bool) (cases []Case, sizes map[string]any) {
 			if v.name == "tree-big" {
 				b = bound
 			}
-			add(Case{Sweep: "roundtrip", Codec: codec, Value: v.name, Zero: 1, Bound: b})
+			add(Case{Sweep: "roundtrip", Codec: codec, Value: v.name, Zero: 1, Errs: 2, Bound: b})
 		}
 		for _, bd := range badDests {
 			for _, val := range []string{"tree-nested", "top-string"} {
-				add(Case{Sweep: "dest", Codec: codec, Kind: bd.name, Value: val, Zero: 1, Bound: 1})
+				add(Case{Sweep: "dest", Codec: codec, Kind: bd.name, Value: val, Zero: 1, Errs: 2, Bound: 1})
 			}
 		}
 	}
